@@ -22,6 +22,48 @@ def run(report, p):
     report.assume("os.replace is atomic on the same file system (POSIX rename semantics)")
     report.assume("the loader ignores directory entries that do not end with the manifest extension (checked: suffix of temporary names)")
 
+    # ------------------------------------------------------------------ R15.6
+    r6 = report.rule(
+        "R15.6",
+        "the publish step (rename onto a final name) is never placed where the run time executes it on the failure path as well: not in close() / __del__ of a class derived "
+        "from an io class or owning a finaliser (io.IOBase.__del__ calls close() when the object is collected after an exception), and in __exit__ only under a test of the "
+        "exception arguments",
+        1,
+    )
+    _MOVES = ("ext:os.replace", "ext:os.rename", "ext:os.renames", "ext:shutil.move")
+    for cq in sorted(p.classes):
+        c = p.classes[cq]
+        exts = p.ext_bases(cq)
+        io_like = any(b.replace("ext:", "").split(".")[0] in ("io", "_io", "_pyio", "tempfile", "gzip", "bz2", "lzma") for b in exts)
+        own = {}
+        for k in p.mro(cq):
+            for mname, mf in p.classes[k].methods.items():
+                own.setdefault(mname, mf)
+        has_del = "__del__" in own
+        implicit = []
+        if io_like or has_del:
+            implicit += [own[m] for m in ("close", "__del__") if m in own]
+        if "__exit__" in own:
+            implicit.append(own["__exit__"])
+        for mf in implicit:
+            for fq in sorted(p.reachable([mf.qual])):
+                f2 = p.funcs[fq]
+                for call, tg in p.calls[fq]:
+                    if not any(t in _MOVES for t in tg):
+                        continue
+                    if mf.name == "__exit__":
+                        exc_params = set(mf.params[1:]) | ({mf.vararg} if mf.vararg else set())
+                        g2 = cfg_of(f2)
+                        guarded = f2 is mf and any(t.kind == "test" and any(isinstance(x, ast.Name) and x.id in exc_params for x in ast.walk(t.ast)) for t, _ in g2.control_deps(g2.node_for(call), through_loops=False))
+                        if guarded:
+                            continue
+                    how = {"close": "io.IOBase.__del__ calls close() when the half-written object is collected after an exception", "__del__": "the finaliser runs when the half-written object is collected after an exception", "__exit__": "__exit__ also runs when the with-body raised"}[mf.name]
+                    r6.check(False, f2, call, f"`{norm(call)[:70]}` publishes the file from {cq.split('.')[-1]}.{mf.name}: {how}, so a write that failed half way still moves the truncated temporary over the final name (the previous chain file / a manifest name then holds a partial document and every later command aborts)", construct=f"publish in {mf.name}")
+    for fq in sorted(reach_from(p, [need(cmds, "create").qual])):
+        for call, tg in p.calls[fq]:
+            if any(t in _MOVES for t in tg):
+                r6.instance(p.funcs[fq], call, norm(call)[:70])
+
     # ------------------------------------------------------------------ R15.1
     r1 = report.rule(
         "R15.1",
